@@ -34,8 +34,10 @@ def gen_scenario(rng, sid, big=False):
         if flood and w == victim: L.append("%s block 0" % a)
         for _ in range(rng.randint(1, 8)):
             L.append("%s send %d %d %d" % (a, rng.choice(dsts + [w]), rng.choice([0, 0, 1, 1, 3, 4, 5, 7]), nid()))
+    wf = None
     if rng.random() < 0.4:                                       # injected write failure on some pipe
-        L.append("m wfault %d %d %d" % (rng.choice(dsts), rng.randint(1, 6), rng.choice([11, 11, 32, 9])))
+        wf = rng.choice(dsts)
+        L.append("m wfault %d %d %d" % (wf, rng.randint(1, 6), rng.choice([11, 11, 32, 9])))
     # workers first (the victim must be parked before the flood starts)
     for a in [x for x in actors if x[0] == "w"]: L.append("m spawn %s" % a)
     if flood: L.append("m sleep 3000")
@@ -43,6 +45,9 @@ def gen_scenario(rng, sid, big=False):
     for a in [x for x in actors if x[0] == "e"]: L.append("m join %s" % a)
     if flood: L.append("m open 0")
     for a in [x for x in actors if x[0] == "w"]: L.append("m join %s" % a)
+    # a fault that was not consumed by the senders is disarmed: it would hit the shutdown message (lost shutdown message = a
+    # teardown hang, property C11's known finding, 90 s of watchdog per occurrence)
+    if wf is not None: L.append("m wfault %d 0 0" % wf)
     # the 20 ms pause keeps the teardown race of tp_shutdown_wait (property C11) out of these runs
     L += ["m quiesce", "m shutdown", "m sleep 20000", "m shutdown_wait", "m destroy", "m reset"]
     return "\n".join(L) + "\n", {"n": n, "flood": flood, "skip": skip, "actors": actors}
@@ -75,6 +80,21 @@ def hold_scenario(rng, sid):
     L += ["m open 3"] * n
     L += ["m shutdown_wait", "m destroy", "m reset"]
     return "\n".join(L) + "\n", {"n": n, "hold": True}
+
+def busy_shutdown_scenario(rng, sid):
+    """tp_shutdown arrives while a worker is still inside a callback and messages that were ACCEPTED (rc 0, thread RUNNING)
+    wait in its queue ahead of the shutdown message: they must all run, in order, before the thread leaves its loop"""
+    n = rng.choice([1, 2, 3, 4])
+    w = rng.randrange(n)
+    L = ["m pool %d 0" % n, "m start 0", "m waitrun", "w%d block 0" % w, "m spawn w%d" % w, "m waitblocked 0 1"]
+    base = (sid % 40) * 1000 + 700
+    for k in range(rng.randint(3, 9)):
+        L.append("m send %d %d %d" % (w, rng.choice([0, 0, 0, 4, 1]), base + k))
+    for t in range(n):
+        if t != w and rng.random() < 0.5: L.append("m send %d 0 %d" % (t, base + 20 + t))
+    # the 20 ms pause keeps the teardown race of tp_shutdown_wait (property C11) out of these runs
+    L += ["m shutdown", "m open 0", "m join w%d" % w, "m sleep 20000", "m shutdown_wait", "m destroy", "m reset"]
+    return "\n".join(L) + "\n", {"n": n, "busy_shutdown": True}
 
 def segments(evs):
     """cut the concatenated trace into pool lives; the C05 segment of a life ends at call.shutdown"""
@@ -123,6 +143,8 @@ def run(ctx):
                 t, m = pvt_flood_scenario(rng, sid, 240 if ctx.quick else 900)
             elif sid % 8 == 5:
                 t, m = hold_scenario(rng, sid)
+            elif sid % 8 == 7:
+                t, m = busy_shutdown_scenario(rng, sid)
             else:
                 t, m = gen_scenario(rng, sid, big=not ctx.quick or sid % 6 == 0)
             texts.append(t); metas.append(m)
